@@ -114,14 +114,30 @@ def h_resume(cx, stations, station_of, H, battery, mode, mr, L, rec, hist, crash
         simR = simB
     else:
         pending_before = [(ts, e.event_type, getattr(e, "session_id", None) if e.event_type != "Recompute" else None) for ts, e in simB.event_queue.queue]
-        if cx.mode == "sym":
-            doc = simB.to_json()
-            simR = A.Simulator.from_json(doc)
-        else:
-            import warnings
+        import warnings
 
-            with warnings.catch_warnings():
-                warnings.simplefilter("ignore")
+        with warnings.catch_warnings():
+            warnings.simplefilter("ignore")
+            if mode == "json_path":
+                # the file-path form of to_json / from_json
+                import os
+                import tempfile
+
+                fd, path = tempfile.mkstemp(suffix=".json", prefix="symx_c09_")
+                os.close(fd)
+                try:
+                    simB.to_json(path)
+                    simR = A.Simulator.from_json(path)
+                finally:
+                    os.unlink(path)
+            elif mode == "json_buffer":
+                import io
+
+                buf = io.StringIO()
+                simB.to_json(buf)
+                buf.seek(0)
+                simR = A.Simulator.from_json(buf)
+            else:
                 doc = simB.to_json()
                 simR = A.Simulator.from_json(doc)
         cx.check("load:is_new_object", simR is not simB and simR.network is not simB.network)
@@ -201,6 +217,8 @@ def jobs(tier):
         for mode in ("plain", "json"):
             cfgs.append((S2, (0, 1), 3, "ideal", mode, 1, 1, False, mode == "json", None))
             cfgs.append((S2c, (0, 0), 3, "stepwise", mode, None, 2, True, False, None))
+        cfgs.append((S2c, (0, 1), 2, "ideal", "json_path", 1, 1, False, False, None))
+        cfgs.append((S2c, (0, 1), 2, "ideal", "json_buffer", 1, 1, False, False, None))
     else:
         for mode in ("plain", "json"):
             cfgs.append((S2, (0, 1), 4, "ideal", mode, 1, 1, False, True, None))
@@ -209,6 +227,9 @@ def jobs(tier):
             cfgs.append((S3, (0, 1, 2), 3, "stepwise", mode, 1, 1, False, False, None))
             cfgs.append((S3, (0, 0, 1), 4, "ideal", mode, 1, 2, False, True, None))
             cfgs.append((S2, (0, 1), 3, "continuous", mode, 1, 1, False, False, None))
+        for mode in ("json_path", "json_buffer"):
+            cfgs.append((S2c, (0, 1), 3, "ideal", mode, 1, 1, False, True, None))
+            cfgs.append((S3, (0, 1, 2), 3, "stepwise", mode, None, 2, True, False, None))
     js = []
     for st, so, H, bat, mode, mr, L, rec, hist, cons in cfgs:
       for crash in range(H + 1):
@@ -218,7 +239,7 @@ def jobs(tier):
                       max_paths=100000, timeout=6000, approx=(bat == "continuous"),
                       bounds=dict(stations=len(st), sessions=len(so), horizon=H, battery=bat, evse=[s[1] for s in st], crash_period=crash, mode=mode, max_recompute=mr,
                                   schedule_length=L, pending_recompute_event=rec, schedule_history=hist, constraint=cons is not None),
-                      cost=(10 ** len(so)) * H * H * (2 if mode == "json" else 1)))
+                      cost=(10 ** len(so)) * H * H * (2 if mode.startswith("json") else 1)))
     return js
 
 
